@@ -24,7 +24,8 @@ ASSUMPTIONS = ['reference: RefProlog database (copy on assert with consistent re
 X, Y, Z, W = V('X'), V('Y'), V('Z'), V('W')
 a, b = A('a'), A('b')
 OPS = [(X, F('f', Y)), (Y, a), (X, Y), (Y, F('g', Z)), (Z, b)]
-ASSERTS = [F('p', X), F('p', F('f', Y)), F('p', ('v', ('_', 1))), F('p', F('g', X, Y)), F('p', F('g', Y, Y))]
+ASSERTS = [F('p', X), F('p', F('f', Y)), F('p', ('v', ('_', 1))), F('p', F('g', X, Y)), F('p', F('g', Y, Y)),
+           F('p', F('.', a, Y))]      # a partial list [a|Y]: the variable is the TAIL of a list cell
 CONTS = ['true', 'use', 'fail']
 USES = ['pa', 'pb', 'pfb', 'pgab', 'pgaa', 'twice', 'double', 'gdouble', 'enum']
 UCLAUSE = (F('u', V('A'), V('B')), conj(call(F('p', V('A'))), call(F('p', V('B'))), call(F('=', V('A'), a)), call(F('=', V('B'), b))))
@@ -98,7 +99,8 @@ def do_use(w, use, is_ref):
     if use == 'gdouble':
         # two simultaneously suspended GROUND uses that need different bindings of the fact's variables
         obs = []
-        for g1, g2 in ((F('p', F('g', a, a)), F('p', F('g', b, b))), (F('p', a), F('p', b)), (F('p', F('f', a)), F('p', F('f', b)))):
+        for g1, g2 in ((F('p', F('g', a, a)), F('p', F('g', b, b))), (F('p', a), F('p', b)), (F('p', F('f', a)), F('p', F('f', b))),
+                       (F('p', F('.', a, F('.', a, A('[]')))), F('p', F('.', a, F('.', b, A('[]')))))):
             h1 = w.start(g1)
             n1 = 1 if w.step(h1) else 0
             h2 = w.start(g2, under=h1 if n1 else None)
